@@ -68,6 +68,13 @@ inductive Fn where
   | cuu | cud | ind | nel | ri | lf | cht | scrollUp | scrollDown
   deriving DecidableEq, Repr, Inhabited
 
+/-- Two statements of print() about the character sets, recognised as a whole (their source text
+    is fixed in the translator): the DEC special graphics translation of a one-byte grapheme and the
+    end of a single shift. -/
+inductive Prim where
+  | decSpecial | singleShift
+  deriving DecidableEq, Repr, Inhabited
+
 inductive Stmt where
   | skip
   | seq (a b : Stmt)
@@ -90,6 +97,15 @@ inductive Stmt where
   /-- `line := vt.activeScreen[r]` (the index expression is evaluated; the alias itself is resolved
       by the translator) -/
   | touchRow (r : Ex)
+  /-- `vt.activeScreen[r][c].wrapped = true` -/
+  | setWrapped (r c : Ex)
+  /-- `vt.activeScreen[r][c] = cell{grapheme, width, vt.cursor.Style}` (the glyph being printed) -/
+  | putGlyph (r c : Ex) (w : Ex)
+  /-- `vt.activeScreen[r][c].Character.Grapheme = " "` -/
+  | setSpace (r c : Ex)
+  /-- `vt.activeScreen[r][c].Style = vt.cursor.Style` -/
+  | setPen (r c : Ex)
+  | prim (p : Prim)
   /-- `vt.f()` / `vt.f(arg)` -/
   | call (f : Fn) (arg : Option Ex)
   | unknown (text : String)
